@@ -72,7 +72,9 @@ def shape_of(variant):
             return (['A'], ['A', 'P'], kind, pd), sto
         return ([], ['P'], kind, pd), sto
     if kind == 'general':
-        return (['A'], ['P'], 'general', {'rate': 'kf*A*B/(Kd+A)' if 'michaelis' in parts[1] else 'kf*A**2 - Kd*A'}), sto
+        rate = {'michaelis-menten': 'kf*A*B/(Kd+A)', 'python-power': 'kf*A**2 - Kd*A', 'unary-minus-on-a-power': 'kf*exp(-A^2/Kd) + B',
+                'power-of-a-power': 'kf*A^B^0.5 + Kd'}.get(parts[1], 'kf*A*B/(Kd+A)')
+        return (['A'], ['P'], 'general', {'rate': rate}), sto
     return None, sto
 
 
@@ -83,7 +85,7 @@ def random_shape(rng):
     if kind == 'massaction':
         return ([rng.choice(SPECIES[:4]) for _ in range(rng.randint(0, 4))], prods, 'massaction', {'k': rng.choice(['kf', round(rng.uniform(0.1, 3), 3)])})
     if kind == 'general':
-        return ([rng.choice(SPECIES[:4])], prods, 'general', {'rate': rng.choice(['kf*A*B/(Kd+A)', 'kf*A**2 + Kd*B', 'kf*(A+B)^2/(1+Kd*D)', 'nh*exp(-Kd*A)*B'])})
+        return ([rng.choice(SPECIES[:4])], prods, 'general', {'rate': rng.choice(['kf*A*B/(Kd+A)', 'kf*A**2 + Kd*B', 'kf*(A+B)^2/(1+Kd*D)', 'nh*exp(-Kd*A)*B', 'kf*exp(-A^2/Kd) + B', 'kf*A^B^0.5 + Kd'])})
     pd = {'k': rng.choice(['kf', 1.3]), 'K': rng.choice(['Kd', 2.5]), 'n': rng.choice(['nh', 2.0]), 's1': rng.choice(SPECIES[:4])}
     if kind.startswith('proportional'):
         pd['d'] = rng.choice(SPECIES[:4])
